@@ -33,3 +33,26 @@ def C19():
 
 
 ALL = {"C19": C19}
+
+
+def _lib_units(extra=()):
+    names = ["dbl_on", "dbl_off"] + list(extra)
+    us = F.load_many(names)
+    return [us[n] for n in names]
+
+
+def C08():
+    from . import r_grd
+    chk = Check("C08", "other",
+                "R-GRD: must-pass-through of a grid comparison on every normal path of every public library "
+                "function with two or more grid-carrying inputs (derived from the signatures), with call-graph "
+                "summaries; decided on the CFG of every instantiation for all inputs",
+                checker_cmd="bin/check C08")
+    units = _lib_units()
+    chk.units = [u.name for u in units]
+    ents = r_grd.run(chk, units)
+    chk.floor("R-GRD.a", len(ents), 14, "entry points with >=2 grid-carrying inputs")
+    return chk
+
+
+ALL["C08"] = C08
